@@ -86,20 +86,25 @@ section
 variable (I : Interp) (env : Env) (code : List Nat) (p : Evm.Params) (w : Evm.World)
 variable (s : Simp) (o : Oracle) (cfg : Cfg)
 
+/-- the storage maps of `st'` describe the world `w'` whenever those of `st` describe `w` (for every start world) -/
+def WStep (I : Interp) (this : Nat) (st : SState) (w : Evm.World) (st' : SState) (w' : Evm.World) : Prop :=
+  ∀ w0, WRel I w0 w this st.storage st.transient → WRel I w0 w' this st'.storage st'.transient
+
 /-- see the file header (the valuation `I` is assumed to satisfy the path of `st`) -/
 def Corr (st : SState) (f : Evm.Frame) (out : StepOut) : Prop :=
-  (∃ st' f', out = contOut st' ∧ Sat I st'.path ∧ st'.visits = st.visits ∧
-      CReach p w f f' ∧ R I env code p st' f') ∨
+  (∃ st' w' f', out = contOut st' ∧ Sat I st'.path ∧ st'.visits = st.visits ∧
+      CReach p (w, f) (w', f') ∧ R I env code p st' f' ∧ WStep I f.this st w st' w') ∨
   (∃ st0 h data, out = haltOut st0 h .normal data ∧ st0.path = st.path ∧
+      st0.storage = st.storage ∧ st0.transient = st.transient ∧
       Evm.step p w f = .halt w (haltWith h (data.map (·.eval I)))) ∨
   (∃ e, out = { ends := [e] } ∧ e.st.path = st.path ∧ ((∃ r, e.out = .stuck r) ∨ e.tag ≠ .normal)) ∨
   (∃ st0 target c, out = jumpi s o cfg code st0 target c (st.pc + 1) ∧ c.WF ∧ st0.path = st.path ∧
-      st0.visits = st.visits ∧
+      st0.visits = st.visits ∧ st0.storage = st.storage ∧ st0.transient = st.transient ∧
       (c.eval I = true → target ∈ Evm.validJumpdests code →
-        ∃ f1 f2, CReach p w f f1 ∧ R I env code p { st0 with pc := target } f1 ∧
-                 CReach p w f f2 ∧ R I env code p { st0 with pc := target + 1 } f2) ∧
+        ∃ f1 f2, CReach p (w, f) (w, f1) ∧ R I env code p { st0 with pc := target } f1 ∧
+                 CReach p (w, f) (w, f2) ∧ R I env code p { st0 with pc := target + 1 } f2) ∧
       (c.eval I = true → target ∉ Evm.validJumpdests code → Evm.step p w f = .halt w .invalidJump) ∧
-      (c.eval I = false → ∃ f1, CReach p w f f1 ∧ R I env code p { st0 with pc := st.pc + 1 } f1))
+      (c.eval I = false → ∃ f1, CReach p (w, f) (w, f1) ∧ R I env code p { st0 with pc := st.pc + 1 } f1))
 
 end
 
@@ -107,20 +112,34 @@ section
 variable {I : Interp} {env : Env} {code : List Nat} {p : Evm.Params} {w : Evm.World}
 variable {s : Simp} {o : Oracle} {cfg : Cfg} {st : SState} {f : Evm.Frame}
 
-theorem Corr.cont1 {st' : SState} {f' : Evm.Frame} (hsat : Sat I st.path) (hp : st'.path = st.path)
-    (hv : st'.visits = st.visits) (hstep : Evm.step p w f = .next w f') (hR : R I env code p st' f') :
+theorem WStep.same {this : Nat} {st' : SState} (hs : st'.storage = st.storage) (ht : st'.transient = st.transient) :
+    WStep I this st w st' w := by
+  intro w0 h; rw [hs, ht]; exact h
+
+/-- the world and the storage maps are untouched (every instruction but SSTORE / TSTORE) -/
+theorem Corr.cont0 {st' : SState} {f' : Evm.Frame} (hsat' : Sat I st'.path) (hv : st'.visits = st.visits)
+    (hreach : CReach p (w, f) (w, f')) (hR : R I env code p st' f')
+    (hs : st'.storage = st.storage := by rfl) (ht : st'.transient = st.transient := by rfl) :
     Corr I env code p w s o cfg st f (contOut st') :=
-  Or.inl ⟨st', f', rfl, by rw [hp]; exact hsat, hv, CReach.single hstep, hR⟩
+  Or.inl ⟨st', w, f', rfl, hsat', hv, hreach, hR, WStep.same hs ht⟩
+
+theorem Corr.cont1 {st' : SState} {f' : Evm.Frame} (hsat : Sat I st.path) (hp : st'.path = st.path)
+    (hv : st'.visits = st.visits) (hstep : Evm.step p w f = .next w f') (hR : R I env code p st' f')
+    (hs : st'.storage = st.storage := by rfl) (ht : st'.transient = st.transient := by rfl) :
+    Corr I env code p w s o cfg st f (contOut st') :=
+  Corr.cont0 (by rw [hp]; exact hsat) hv (CReach.single hstep) hR hs ht
 
 theorem Corr.halt {st0 : SState} {h : Evm.Halt} (hp : st0.path = st.path) (hstep : Evm.step p w f = .halt w h)
-    (hh : haltWith h [] = h := by rfl) :
+    (hh : haltWith h [] = h := by rfl)
+    (hs : st0.storage = st.storage := by rfl) (ht : st0.transient = st.transient := by rfl) :
     Corr I env code p w s o cfg st f (haltOut st0 h) :=
-  Or.inr (Or.inl ⟨st0, h, [], rfl, hp, by simp only [List.map_nil, hh]; exact hstep⟩)
+  Or.inr (Or.inl ⟨st0, h, [], rfl, hp, hs, ht, by simp only [List.map_nil, hh]; exact hstep⟩)
 
 theorem Corr.haltData {st0 : SState} {h : Evm.Halt} {data : List T} (hp : st0.path = st.path)
-    (hstep : Evm.step p w f = .halt w (haltWith h (data.map (·.eval I)))) :
+    (hstep : Evm.step p w f = .halt w (haltWith h (data.map (·.eval I))))
+    (hs : st0.storage = st.storage := by rfl) (ht : st0.transient = st.transient := by rfl) :
     Corr I env code p w s o cfg st f (haltOut st0 h .normal data) :=
-  Or.inr (Or.inl ⟨st0, h, data, rfl, hp, hstep⟩)
+  Or.inr (Or.inl ⟨st0, h, data, rfl, hp, hs, ht, hstep⟩)
 
 theorem Corr.stuck {st0 : SState} {r : StuckReason} (hp : st0.path = st.path) :
     Corr I env code p w s o cfg st f (stuckOut st0 r) :=
@@ -146,7 +165,7 @@ theorem wordRel_mkBV (hs : SimpSound s) {t : T} (ht : t.WF) {n : Nat} (hn : t.ev
 theorem corr_push (hR : R I env code p st f) (hsat : Sat I st.path) {v : HV} {n k : Nat} (hw : WordRel I v n)
     (hstep : Evm.step p w f = .next w { f with stack := n :: f.stack, pc := f.pc + k }) :
     Corr I env code p w s o cfg st f (contOut { st with pc := st.pc + k, stack := v :: st.stack }) := by
-  refine Corr.cont1 hsat rfl rfl hstep (hR.next' rfl rfl rfl rfl rfl rfl rfl rfl rfl ?_ ?_)
+  refine Corr.cont1 hsat rfl rfl hstep (hR.next' sc! rfl rfl rfl rfl rfl ?_ ?_)
   · simp only [hR.pc]
   · exact StackRel.cons hw hR.stack
 
@@ -161,10 +180,10 @@ theorem corr_land (hR : R I env code p st f) {rest : List HV} {cs : List Nat} {d
     ∃ f2, Evm.step p w { f with stack := cs, pc := dst } = .next w f2 ∧
       R I env code p { st with pc := dst + 1, stack := rest } f2 := by
   have hR1 : R I env code p { st with pc := dst, stack := rest } { f with stack := cs, pc := dst } :=
-    hR.next' rfl rfl rfl rfl rfl rfl rfl rfl rfl rfl hstk
+    hR.next' sc! rfl rfl rfl rfl rfl rfl hstk
   refine ⟨hR1, _, evm_jumpdest (f := { f with stack := cs, pc := dst }) ?_ (by simp only; omega), ?_⟩
   · simp only [hR.code]; exact jumpdest_opcode hv
-  · exact hR1.next' rfl rfl rfl rfl rfl rfl rfl rfl rfl rfl hstk
+  · exact hR1.next' sc! rfl rfl rfl rfl rfl rfl hstk
 
 /-! ### the leaves of `step`, opcode class by opcode class -/
 
@@ -265,7 +284,8 @@ theorem corr_word (hs : SimpSound s) (hI : I.Std) (hR : R I env code p st f) (hs
   rw [wordStep_ok wop (List.take_append_drop (wordArity wop) f.stack).symm hcl] at hstep
   have hwr : WordRel I r (specOp wop (f.stack.take (wordArity wop))) := ⟨rwf, rw', rd⟩
   rw [Nat.mod_eq_of_lt (wordrel_lt hwr)] at hstep
-  refine Or.inl ⟨_, _, rfl, ?_, ?_, CReach.single hstep, hR.next rfl rfl rfl rfl rfl ?_ ?_ ?_ ?_⟩
+  refine Corr.cont0 ?_ ?_ (CReach.single hstep) (hR.next sc! (addConds_returndata _ _ _) ?_ ?_ ?_ ?_)
+    (addConds_storage _ _ _).1 (addConds_storage _ _ _).2
   · exact (addConds_sat hs hauxwf _).2 ⟨hsat, raux⟩
   · rw [addConds_visits]
   · rw [addConds_pc]; simp only [hR.pc]
